@@ -91,7 +91,7 @@ func project(l line, info *metainfo.Info) {
 func blank(idx int, site string, inlen int) line {
 	return line{"op": "Case", "id": idx, "site": site, "acc": 0, "pl": []int{}, "n": []int{}, "lens": []line{}, "pad": []int{},
 		"priv": 0, "size": []int{}, "lim": 0, "maxn": []int{}, "maxsz": []int{}, "st": 0, "steps": []int{}, "ev": "", "where": "",
-		"akb": 0, "ikb": inlen / 1024}
+		"akb": 0, "ikb": inlen / 1024, "ret": 1, "ms": 0, "tmo": 0}
 }
 
 // ---------------------------------------------------------------------------------------------- child
@@ -200,7 +200,7 @@ func childMain(inputs, scratch string, capMB uint64, portBase int) {
 		cfg.RPCEnabled = false
 		cfg.Host = "127.0.0.1"
 		cfg.PortBegin = uint16(portBase)
-		cfg.PortEnd = uint16(portBase + 100)
+		cfg.PortEnd = uint16(portBase + 50)
 		cfg.MaxOpenFiles = 0
 		cfg.ResumeOnStartup = false
 		s, err := torrent.NewSession(cfg)
@@ -216,6 +216,7 @@ func childMain(inputs, scratch string, capMB uint64, portBase int) {
 		l["maxn"] = limbsI(int64(cfg.MaxPieces))
 		l["maxsz"] = limbsI(int64(cfg.MaxTorrentSize))
 	}
+	ch := &child{scratch: scratch, portBase: portBase, emit: emit}
 	sc := bufio.NewScanner(os.Stdin)
 	for sc.Scan() {
 		var idx, flags int
@@ -223,6 +224,11 @@ func childMain(inputs, scratch string, capMB uint64, portBase int) {
 		data := in.get(idx, 0)
 		infoB := in.get(idx, 1)
 		emit(line{"ph": "job", "id": idx})
+		if flags&fURL != 0 {
+			ch.url(idx, data, infoB)
+			emit(line{"ph": "end", "id": idx})
+			continue
+		}
 		var parsed *metainfo.MetaInfo
 		parse := func() *metainfo.MetaInfo {
 			if parsed == nil {
@@ -350,6 +356,21 @@ func childMain(inputs, scratch string, capMB uint64, portBase int) {
 				snapMu.Unlock()
 			}
 			emit(line{"ph": "case", "l": l})
+		}
+		if flags&fAddL != 0 {
+			ch.addLow(idx, data, parse())
+		}
+		if flags&(fMag|fRes) != 0 {
+			ib := infoB
+			if mi := parse(); mi != nil {
+				ib = mi.Info.Bytes // what the file path took as the info dictionary
+			}
+			if len(ib) > 0 && flags&fRes != 0 {
+				ch.resume(idx, ib)
+			}
+			if len(ib) > 0 && flags&fMag != 0 {
+				ch.magnet(idx, ib)
+			}
 		}
 		emit(line{"ph": "end", "id": idx})
 	}
@@ -685,7 +706,7 @@ func projKey(l line) string {
 	return string(b)
 }
 
-func parentMain(casesPath, outPath, scratch string, seed int64, nmut, workers, reps int, rejectSample int, cpuMs int, maxBad int) {
+func parentMain(casesPath, outPath, scratch string, seed int64, nmut, workers, reps int, rejectSample int, cpuMs int, maxBad int, rejPaths int) {
 	var cases []gcase
 	var hexIns [][]byte
 	if strings.HasSuffix(casesPath, ".hex") { // replay: one hex-encoded input per line instead of generated cases
@@ -709,6 +730,24 @@ func parentMain(casesPath, outPath, scratch string, seed int64, nmut, workers, r
 			panic(err)
 		}
 	}
+	// HTTP-source cases (scripted servers) are kept apart from the metainfo cases
+	var httpCases []gcase
+	{
+		kept := cases[:0]
+		for _, c := range cases {
+			if c.Kind == "http" {
+				httpCases = append(httpCases, c)
+			} else {
+				kept = append(kept, c)
+			}
+		}
+		cases = kept
+	}
+	sort.Slice(httpCases, func(i, j int) bool {
+		a, _ := json.Marshal(httpCases[i])
+		b, _ := json.Marshal(httpCases[j])
+		return bytes.Compare(a, b) < 0
+	})
 	// canonical order: independent of TLC's enumeration order
 	sort.Slice(cases, func(i, j int) bool {
 		a, _ := json.Marshal(cases[i])
@@ -740,6 +779,27 @@ func parentMain(casesPath, outPath, scratch string, seed int64, nmut, workers, r
 			ins = append(ins, input{kind: "mut:" + kind, caseIdx: i, data: m})
 		}
 	}
+	// HTTP-source inputs: data = the body the scripted server has to offer, info = the script
+	good, _ := concretise(gcase{PL: "16384", Pcs: 20, Mode: "single", Len: "pl", Var: "none"})
+	var urlJobs []job
+	for _, hc := range httpCases {
+		var body []byte
+		switch hc.Body {
+		case "good":
+			body = good
+		case "pieces4":
+			body, _ = concretise(gcase{PL: "16384", Pcs: 80, Mode: "single", Len: "4pl", Var: "none"})
+		case "garbage":
+			body = bytes.Repeat([]byte("d4:i\x00\xff9999:le"), 40)
+		case "bigvalid": // a valid .torrent above the low-limit session's MaxTorrentSize
+			body = append([]byte("d7:comment"), bStr(bytes.Repeat([]byte("c"), 100<<10))...)
+			body = append(body, good[1:]...)
+		}
+		script, _ := json.Marshal(hc)
+		cases = append(cases, hc)
+		ins = append(ins, input{kind: "http", caseIdx: len(cases) - 1, data: body, info: script})
+		urlJobs = append(urlJobs, job{len(ins) - 1, fURL})
+	}
 	self, _ := os.Executable()
 	inputsPath := filepath.Join(scratch, "inputs.bin")
 	writeInputs(inputsPath, ins)
@@ -748,6 +808,9 @@ func parentMain(casesPath, outPath, scratch string, seed int64, nmut, workers, r
 	// phase A: parser (+ NewInfo variants on generated cases) and Session.AddTorrent (stopped) on every input
 	var jobs []job
 	for i := range ins {
+		if ins[i].kind == "http" {
+			continue
+		}
 		f := fNew | fAdd
 		if ins[i].kind == "gen" {
 			f |= fNI
@@ -831,12 +894,36 @@ func parentMain(casesPath, outPath, scratch string, seed int64, nmut, workers, r
 		for i := 0; i < len(ids) && i < reps; i++ {
 			jobsB = append(jobsB, job{ids[i], fNP}, job{ids[i], fStart})
 		}
+		// the same description through the other entry paths, on the session with lowered limits
+		jobsB = append(jobsB, job{ids[0], fAddL | fRes | fMag})
+	}
+	// ... and a seeded sample of info dictionaries that the parser refuses
+	{
+		var rej []int
+		for _, l := range phaseA {
+			id := idOf(l)
+			if l["site"] == "new" && fmt.Sprint(l["acc"]) == "0" && ins[id].kind == "gen" && len(ins[id].info) > 0 && len(ins[id].info) <= 64<<10 {
+				rej = append(rej, id)
+			}
+		}
+		for k, i := range rng.Perm(len(rej)) {
+			if k >= rejPaths {
+				break
+			}
+			jobsB = append(jobsB, job{rej[i], fRes | fMag})
+		}
 	}
 	r.lines = nil
 	r.memcap = 1024
 	r.deadline = 60 * time.Second
 	r.cpuLimit = time.Duration(cpuMs) * time.Millisecond
+	wg.Add(1)
+	go func() { // URL jobs mostly wait for time-outs: small batches next to the bulk
+		defer wg.Done()
+		r.runAll(urlJobs, minInt(workers, 6), 3)
+	}()
 	r.runAll(jobsB, workers, 25)
+	wg.Wait()
 	phaseB := r.lines
 	sort.SliceStable(phaseB, func(a, b int) bool { return idOf(phaseB[a]) < idOf(phaseB[b]) })
 
@@ -851,7 +938,7 @@ func parentMain(casesPath, outPath, scratch string, seed int64, nmut, workers, r
 	put := func(l line) {
 		id := idOf(l)
 		l["kind"] = ins[id].kind
-		if ins[id].kind == "gen" {
+		if ins[id].kind == "gen" || ins[id].kind == "http" {
 			c, _ := json.Marshal(cases[ins[id].caseIdx])
 			l["case"] = string(c)
 		} else {
@@ -896,7 +983,7 @@ func parentMain(casesPath, outPath, scratch string, seed int64, nmut, workers, r
 			v, _ := n.Int64()
 			big = v > 8192
 		}
-		if acc || ev != "" || big {
+		if acc || ev != "" || big || site == "url" || site == "mag" || site == "res" || site == "addl" {
 			put(l)
 		} else {
 			nrej++
@@ -911,6 +998,7 @@ func parentMain(casesPath, outPath, scratch string, seed int64, nmut, workers, r
 	stats["inputs.mutated"] = len(ins) - ngen
 	stats["projections"] = len(keys)
 	stats["phaseB.jobs"] = len(jobsB)
+	stats["url.jobs"] = len(urlJobs)
 	stats["children"] = r.nchild
 	sb, _ := json.Marshal(stats)
 	fmt.Println(string(sb))
@@ -944,10 +1032,11 @@ func main() {
 	rejs := flag.Int("rejsample", 10, "")
 	cpuMs := flag.Int("cpums", 1500, "CPU budget of one piece-construction / start job (ms)")
 	maxBad := flag.Int("maxbad", 0, "cap on the number of distinct projections run in phase B (0 = all)")
+	rejPaths := flag.Int("rejpaths", 24, "parser-refused info dictionaries sent through the resume and magnet paths")
 	flag.Parse()
 	if *mode == "child" {
 		childMain(*inputs, *scratch, uint64(*memcap), *portbase)
 		return
 	}
-	parentMain(*cases, *out, *scratch, *seed, *nmut, *workers, *reps, *rejs, *cpuMs, *maxBad)
+	parentMain(*cases, *out, *scratch, *seed, *nmut, *workers, *reps, *rejs, *cpuMs, *maxBad, *rejPaths)
 }
